@@ -272,6 +272,22 @@ fn chunker_next_end_of_stream_is_final() {
 // (Two further scenarios -- a gap before the first document, and a parser error after the first document -- were
 // tried and dropped: both exhausted CBMC's memory although they differ from the scenarios above only in one event.)
 
+/// A parser / reader error is reported as InvalidData whatever its own kind (yaml::input_matches skips the YAML
+/// candidate exactly on InvalidData; any other kind aborts detection).
+#[kani::proof]
+#[kani::unwind(9)]
+#[kani::stub(Parser::new, fake_new)]
+#[kani::stub(Parser::next_event, scripted_next_event)]
+fn chunker_next_wraps_errors_as_invalid_data() {
+	let data = ascii_stream::<2>();
+	script(&[(0, 0, 0)]);
+	let mut c = chunker_over(data);
+	let d = c.next();
+	match &d { Some(Err(e)) => assert!(e.kind() == io::ErrorKind::InvalidData, "Chunker::next must re-wrap parser errors as InvalidData"), _ => assert!(false) }
+	std::mem::forget(d);
+	std::mem::forget(c);
+}
+
 /// An empty stream has no documents.
 #[kani::proof]
 #[kani::unwind(9)]
